@@ -126,8 +126,22 @@ def hvarAgrees (d : Design) (f : Font) : Option (Bool × String) :=
     let comparable (nm : String) : Bool :=
       d.masters.any (fun m => (m.glyph? nm).isSome) &&
       d.masters.all fun m => match m.glyph? nm with | some sg => sg.components.isEmpty | none => true
+    -- second chance at rounding ties: the code evaluates the delta expression in f64 (see `C03.deltasFollowing`)
+    let followed (gid : Nat) : List (List (Rat × Rat × Rat) × Int) :=
+      match st.deltas.getD gid none, gs[gid]? with
+      | some e, some g =>
+        if g.masters.length < 2 then modelDeltaSet (some e) else
+        let fset := fontDeltaSet hv gid
+        let impl (j : Nat) : Option Rat :=
+          if j == 0 then none else
+          (e.model.influence[j]?).map fun r =>
+            ((fset.find? fun p => p.1 == r.map fun t => (t.min, t.peak, t.max)).map fun p => (p.2 : Rat)).getD 0
+        let ds := deltasFollowing e.model (Metric.valuesAt n e.model g.masters) impl
+        modelDeltaSet (some { e with deltas := ds })
+      | e, _ => modelDeltaSet e
     let bad := (f.names.zipIdx).find? fun (nm, gid) =>
-      comparable nm && !sameSet (fontDeltaSet hv gid) (modelDeltaSet ((st.deltas.getD gid none)))
+      comparable nm && !sameSet (fontDeltaSet hv gid) (modelDeltaSet ((st.deltas.getD gid none))) &&
+        !sameSet (fontDeltaSet hv gid) (followed gid)
     match bad with
     | some (nm, gid) => some (false, s!"HVAR delta set of {nm}: font {fontDeltaSet hv gid} model {modelDeltaSet (st.deltas.getD gid none)}")
     | none => if f.names.any comparable then some (true, "") else none
